@@ -178,6 +178,74 @@ def n3(run, tu):
     run.ob('N3/char-pointer-gets-room-for-a-terminator', fn, 'if (ctitem is a char type) datasize *= 2', ok, tu.where(dbl[0].ast) if dbl else tu.where(f))
 
 
+def n4(run, tu):
+    """the length helper is given the *item* type of the array being allocated, at every call site"""
+    for fname, call in rules.callers_of(tu, 'get_new_array_length'):
+        f = tu.func(fname)
+        a0 = cx.call_args(call)[0]
+        txt = cx.render(a0)
+        ok = txt.endswith('->ct_itemdescr')
+        if not ok and cx.strip(a0, casts=True).get('kind') == 'DeclRefExpr':
+            d = rules.single_def(f, txt)
+            ok = d is not None and cx.render(d).endswith('->ct_itemdescr')
+            txt = '%s (= %s)' % (txt, cx.render(d) if d is not None else '?')
+        run.ob('N4/length-helper-gets-the-item-type', fname, 'get_new_array_length(%s, ...)' % txt, ok, tu.where(call),
+               'the helper decides by the item size whether a str initialiser is counted in UTF-16 units; given the array type (size -1) it counts code points')
+
+
+def n5(run, tu):
+    """add_varsize_length fails exactly when offset + itemsize * length does not fit: decided exhaustively on a
+    width-reduced model (Py_ssize_t / size_t taken as 8 bits; the function only uses width-parametric arithmetic)"""
+    from ..cast import absint
+    from ..cast.absint import Con
+    fn = 'add_varsize_length'
+    g = cfg_of(tu, fn)
+    big = [int(x['value']) for x in cx.walk(tu.func(fn)) if x.get('kind') == 'IntegerLiteral' and abs(int(x['value'])) > 127]
+    if big:
+        from .. import AnalysisError
+        raise AnalysisError('%s: uses width-specific constants (%s); the width-reduced model does not apply and this rule cannot decide it' % (fn, big[:3]))
+    saved = dict(absint._TYPES)
+    bad_accept, bad_reject, bad_value = [], [], []
+    n = 0
+    try:
+        for k in ('long', 'Py_ssize_t', 'ssize_t', 'long long', 'intptr_t'):
+            absint._TYPES[k] = (8, True)
+        for k in ('unsigned long', 'size_t', 'unsigned long long', 'uintptr_t'):
+            absint._TYPES[k] = (8, False)
+        for offset in (0, 1, 5, 24, 100, 127):
+            for itemsize in (1, 2, 3, 4, 8, 16):
+                for length in range(0, 128):
+                    for old in (0, 50):
+                        env = {'offset': Con(offset, 8, True), 'itemsize': Con(itemsize, 8, True), 'varsizelength': Con(length, 8, True), '*optvarsize': Con(old, 8, True)}
+                        it = absint.Interp(g, env, {}, const_vars={'offset', 'itemsize', 'varsizelength'}).run()
+                        rets = {nid: v for nid, v in it.returns.items()}
+                        vals = sorted({v.v if isinstance(v, Con) else None for v in rets.values()})
+                        if len(vals) != 1 or vals[0] is None:
+                            from .. import AnalysisError
+                            raise AnalysisError('%s: not decided by constant propagation at offset=%d itemsize=%d length=%d (returns %s)' % (fn, offset, itemsize, length, vals))
+                        true = offset + itemsize * length
+                        n += 1
+                        if true > 127 and vals[0] == 0:
+                            bad_accept.append((offset, itemsize, length, true))
+                        elif true <= 127 and vals[0] != 0:
+                            bad_reject.append((offset, itemsize, length, true))
+                        elif true <= 127:
+                            rid = list(rets)[0]
+                            st = it.in_state.get(rid) or {}
+                            nv = st.get('*optvarsize')
+                            if not (isinstance(nv, Con) and nv.v == max(old, true)):
+                                bad_value.append((offset, itemsize, length, true, old, repr(nv)))
+    finally:
+        absint._TYPES.clear()
+        absint._TYPES.update(saved)
+    site = tu.where(tu.func(fn))
+    run.ob('N5/size-overflow-detected-exactly', fn, 'offset + itemsize * length too large -> OverflowError (8-bit model, %d points)' % n, not bad_accept, site,
+           'accepted although the true size %d does not fit: offset=%d itemsize=%d length=%d (a wrapped product that lands at or above the offset slips through)' % (
+               bad_accept[0][3], bad_accept[0][0], bad_accept[0][1], bad_accept[0][2]) if bad_accept else 'every overflowing combination is rejected')
+    run.ob('N5/size-overflow-detected-exactly', fn, 'sizes that fit are accepted', not bad_reject, site, 'rejected: %s' % (bad_reject[:2],) if bad_reject else '')
+    run.ob('N5/size-overflow-detected-exactly', fn, '*optvarsize becomes max(old, offset + itemsize * length)', not bad_value, site, str(bad_value[:2]))
+
+
 def check(run):
     run.explanation = (
         'Who-passes-dont_clear rule over all callers of allocate_owning_object with a structural proof for each non-zero '
@@ -189,6 +257,10 @@ def check(run):
     n1(run, tu)
     n2(run, tu)
     n3(run, tu)
+    n4(run, tu)
+    n5(run, tu)
+    run.min_instances('N4', 2)
+    run.min_instances('N5', 3)
     run.min_instances('N1', 9)
     run.min_instances('N2', 5)
     run.min_instances('N3', 7)
